@@ -690,6 +690,46 @@ func c09ReplaceOnlyAfterUninstall(w *World, r *Report) {
 				if v, isC := constBool(st.Val); isC && !v {
 					continue
 				}
+				// the stored value is itself "the last revision is uninstalled" (a comparison, or a helper
+				// predicate that is true only there): Replace is true only in that case
+				if bo, isBo := st.Val.(*ssa.BinOp); isBo && bo.Op == token.EQL {
+					c, okc := constString(bo.Y)
+					if !okc {
+						c, okc = constString(bo.X)
+					}
+					if okc && c == "uninstalled" {
+						n++
+						r.OK("C09/REPLACE-GUARD", FuncName(fn)+"/Install.Replace", w.InstrPos(st), "Replace is assigned the comparison with uninstalled itself")
+						continue
+					}
+				}
+				if cc, isCall := st.Val.(*ssa.Call); isCall {
+					if h, _ := calleeOf(cc.Common()); h != nil && inHelm(h) && impliesUninstalled(h) {
+						n++
+						r.OK("C09/REPLACE-GUARD", FuncName(fn)+"/Install.Replace", w.InstrPos(st), "Replace is assigned a predicate that is true only for an uninstalled last revision")
+						continue
+					}
+				}
+				if phi, isPhi := st.Val.(*ssa.Phi); isPhi {
+					// a named condition: phi of false constants and such a predicate
+					allOK := true
+					for _, e := range phi.Edges {
+						if cb, isC := constBool(e); isC && !cb {
+							continue
+						}
+						if cc, isCall := e.(*ssa.Call); isCall {
+							if h, _ := calleeOf(cc.Common()); h != nil && inHelm(h) && impliesUninstalled(h) {
+								continue
+							}
+						}
+						allOK = false
+					}
+					if allOK {
+						n++
+						r.OK("C09/REPLACE-GUARD", FuncName(fn)+"/Install.Replace", w.InstrPos(st), "Replace is assigned a condition that is true only for an uninstalled last revision")
+						continue
+					}
+				}
 				n++
 				r.Fn(FuncName(fn))
 				ok2 := len(guard) > 0
